@@ -73,6 +73,36 @@ def _law(kind, vstar):
     raise ValueError(kind)
 
 
+THICKNESS_BOUNDS = (0.1, 100.0)  # in units of 1/Tnucl (constructor contract)
+OFFSET_BOUNDS = (-10.0, 10.0)
+
+
+def _construct_eom(Tnucl, hydro_attrs, thermo_attrs, nbrFields, errTol, pressRelErrTol, maxIterations, forceImproveConvergence=False):
+    """A real EOM built by its REAL constructor around stand-in collaborators (instances of the real classes created without
+    their own constructors, carrying only the attributes / methods the scenario defines) and a real small grid and
+    BoltzmannSolver. Nothing of the EOM's own attribute layout is assumed by the harness, so a refactoring of its internals
+    (e.g. converting the bounds once in the constructor) cannot raise a false alarm."""
+    import WallGo
+    from WallGo.boltzmann import BoltzmannSolver
+    from WallGo.equationOfMotion import EOM
+    from WallGo.grid3Scales import Grid3Scales
+    from WallGo.hydrodynamics import Hydrodynamics
+    from WallGo.thermodynamics import Thermodynamics
+
+    grid = Grid3Scales(5, 3, 5.0, 5.0, 1.0, 1.0)
+    bs = BoltzmannSolver(grid)
+    hyd = Hydrodynamics.__new__(Hydrodynamics)
+    for k, v in hydro_attrs.items():
+        setattr(hyd, k, v)
+    th = Thermodynamics.__new__(Thermodynamics)
+    th.Tnucl = Tnucl
+    for k, v in thermo_attrs.items():
+        setattr(th, k, v)
+    return EOM(bs, th, hyd, grid, nbrFields, 1.0, list(THICKNESS_BOUNDS), list(OFFSET_BOUNDS), includeOffEq=False,
+               forceEnergyConservation=True, forceImproveConvergence=forceImproveConvergence, errTol=errTol,
+               maxIterations=maxIterations, pressRelErrTol=pressRelErrTol)
+
+
 def _env_run(law_kind, vstar, errTol, vmin, vmax, script):
     import WallGo
     from WallGo.containers import WallParams
@@ -80,21 +110,13 @@ def _env_run(law_kind, vstar, errTol, vmin, vmax, script):
     from WallGo.results import HydroResults
 
     law = _law(law_kind, vstar)
-    eom = EOM.__new__(EOM)
-    eom.includeOffEq = False
-    eom.errTol = errTol
-    eom.pressRelErrTol = 0.1
-    eom.pressAbsErrTol = 0.0
-    eom.maxIterations = 20
-    eom.successTemperatureProfile = True
-    eom.successWallPressure = True
-    eom.wallThicknessBounds = (0.1, 100.0)
-    eom.wallOffsetBounds = (-10.0, 10.0)
-    eom.thermo = types.SimpleNamespace(Tnucl=2.0)
-    eom.nbrFields = 2
+    TNUCL = 2.0
     vJ = 0.7
-    eom.hydrodynamics = types.SimpleNamespace(findvwLTE=lambda: 0.55, vJ=vJ, TMinLowT=0.5, TMaxLowT=2.0, TMinHighT=0.5, TMaxHighT=2.0,
-                                              vMin=vmin, fastestDeflag=lambda: vmax, doesPhaseTraceLimitvmax=[False, False])
+    eom = _construct_eom(
+        TNUCL,
+        dict(findvwLTE=lambda: 0.55, vJ=vJ, TMinLowT=0.5, TMaxLowT=2.0, TMinHighT=0.5, TMaxHighT=2.0, vMin=vmin, fastestDeflag=lambda: vmax,
+             doesPhaseTraceLimitvmax=[False, False]),
+        {}, nbrFields=2, errTol=errTol, pressRelErrTol=0.1, maxIterations=20)
     calls = []
 
     def wallPressure(v, wallParams, atol=None, rtol=None, boltzmannResultsInput=None):
@@ -115,9 +137,9 @@ def _env_run(law_kind, vstar, errTol, vmin, vmax, script):
         elif name == "Tplus-out-of-range":
             Tp = 0.1
         elif name == "width-saturates-lower":
-            widths[0] = eom.wallThicknessBounds[0] / eom.thermo.Tnucl
+            widths[0] = THICKNESS_BOUNDS[0] / TNUCL  # the lower bound in physical units, by the constructor's contract
         elif name == "offset-saturates-upper":
-            offsets[1] = eom.wallOffsetBounds[1]
+            offsets[1] = OFFSET_BOUNDS[1]
         calls.append((float(v), name, p))
         bg = types.SimpleNamespace(velocityProfile=np.array([v, v]), fieldProfiles=np.array([[v, 2 * v]]), temperatureProfile=np.array([Tp, Tm]))
         return (p, WallParams(widths=widths, offsets=offsets), _BR(float(v)), bg, HydroResults(temperaturePlus=Tp, temperatureMinus=Tm, velocityJouguet=vJ))
@@ -250,20 +272,6 @@ def case_iter(c: dict) -> dict:
 
     logging.disable(logging.CRITICAL)
     r = Rel(c["id"])
-    eom = EOM.__new__(EOM)
-    eom.includeOffEq = False
-    eom.forceImproveConvergence = c["improve"]
-    eom.forceEnergyConservation = True
-    eom.errTol = 1e-3
-    eom.pressRelErrTol = c["rtol"]
-    eom.pressAbsErrTol = 1e-8
-    eom.maxIterations = c["maxit"]
-    eom.successTemperatureProfile = True
-    eom.successWallPressure = True
-    eom.particles = []
-    eom.grid = types.SimpleNamespace(M=5, N=3)
-    eom.hydrodynamics = types.SimpleNamespace(vJ=0.7, findHydroBoundaries=lambda v: (-1.0, 1.0, 1.1, 0.9, -0.4))
-
     class _FE:
         interpolationRangeMax = staticmethod(lambda: 2.0)
         interpolationRangeMin = staticmethod(lambda: 0.5)
@@ -271,7 +279,10 @@ def case_iter(c: dict) -> dict:
         def __call__(self, T):
             return types.SimpleNamespace(fieldsAtMinimum=np.zeros((1, 1)))
 
-    eom.thermo = types.SimpleNamespace(Tnucl=1.0, freeEnergyLow=_FE(), freeEnergyHigh=_FE())
+    eom = _construct_eom(1.0, dict(vJ=0.7, findHydroBoundaries=lambda v: (-1.0, 1.0, 1.1, 0.9, -0.4)),
+                         dict(freeEnergyLow=_FE(), freeEnergyHigh=_FE()), nbrFields=1, errTol=1e-3, pressRelErrTol=c["rtol"],
+                         maxIterations=c["maxit"], forceImproveConvergence=c["improve"])
+    eom.pressAbsErrTol = 1e-8  # what solveWall sets before its first evaluation
     eom._updateGrid = lambda wp, vmid: None
     # wallPressure builds zero Polynomials/BoltzmannDeltas/BoltzmannResults before iterating: neutral stand-ins
     EQ.Polynomial = lambda *a, **k: ("poly",)
@@ -636,6 +647,26 @@ def _state_digest(m):
     return bfs.digest(obs)
 
 
+def _array_settings(config):
+    """The manager under a history gets its bounds as float numpy arrays holding the default numbers (a legitimate way of
+    supplying them; the reference manager keeps the default lists): a solver object that converts or clips its copy in place
+    would write through to the manager's configuration and change the next call."""
+    config.configEOM.wallThicknessBounds = np.array(config.configEOM.wallThicknessBounds, dtype=float)
+    config.configEOM.wallOffsetBounds = np.array(config.configEOM.wallOffsetBounds, dtype=float)
+
+
+def _config_digest(m):
+    import dataclasses
+
+    out = {}
+    for name in ("configGrid", "configEOM", "configHydrodynamics", "configThermodynamics", "configBoltzmannSolver"):
+        sub = getattr(m.config, name, None)
+        if sub is not None and dataclasses.is_dataclass(sub):
+            out[name] = {f.name: (np.asarray(getattr(sub, f.name)).tolist() if isinstance(getattr(sub, f.name), (list, tuple, np.ndarray)) else getattr(sub, f.name))
+                         for f in dataclasses.fields(sub)}
+    return repr(sorted((k, sorted(v.items(), key=lambda kv: kv[0])) for k, v in out.items()))
+
+
 def case_history(c: dict) -> dict:
     """One shard = one first operation; explores all continuations up to depth-1 more operations."""
     from .. import models as MD
@@ -649,7 +680,8 @@ def case_history(c: dict) -> dict:
     digests = set()
     ntrans = 0
     for hist in c["histories"]:
-        m = wg.setup_manager(am, 100.0, "S1", "S0", M=20, N=11)
+        m = wg.setup_manager(am, 100.0, "S1", "S0", M=20, N=11, cfg=_array_settings)
+        cfg0 = _config_digest(m)
         outcomes = []
         for op in hist:
             try:
@@ -664,6 +696,7 @@ def case_history(c: dict) -> dict:
             r.true(">".join(hist) + ":solveWall-after-history-no-exception", False, error=repr(ex)[:300], outcomes=outcomes)
             continue
         ntrans += 1
+        r.true(">".join(hist) + ":configuration-untouched-by-solver-calls", _config_digest(m) == cfg0, before=cfg0[:400], after=_config_digest(m)[:400])
         diffs = []
         for k, want in ref.items():
             g = got[k]
